@@ -92,6 +92,7 @@ fn answered(c: &ClientEnd, acc: &mut Vec<u8>) -> bool {
 
 pub fn body(sc: Sc, obs: Arc<Mutex<O>>) {
     ctl::window(false);
+    ctl::spurious(true); // waits may return unnotified (std permits it): a 1-cost deviation
     let srv = start_server();
     let addr = srv.addr.clone();
     ctl::settle();
@@ -419,6 +420,7 @@ impl Check for C20 {
         vec![
             "'within a short bounded time' is decided as 'at quiescence, before any virtual time passes'; removal of a UNIX socket path and the wall-clock bound are bound by the conformance run over kernel sockets".into(),
             "minimum workers that stay parked after the server has been dropped are outside the statement (only surplus workers are required to exit) and are not judged".into(),
+            "a spurious return from a condition-variable wait (std permits it) is offered as one more 1-cost deviation at every decision inside the explored window".into(),
         ]
     }
     fn replay(&self, replay: &Value, acc: &mut Acc) {
